@@ -1,8 +1,10 @@
 (* polliwog/tri/functions.py, polliwog/tri/quad_faces.py and
    polliwog/line/_line_functions.py:coplanar_points_are_on_same_side_of_line   (property C15).
-   Definitions only, generic over NumOps.  `sample` is modelled WITH the proposed repair
-   fixes/C15-sample-zero-weight.diff (searchsorted side="right"); the unrepaired rule is kept as
-   `face_choice_left` so that the defect can be stated. *)
+   Definitions only, generic over NumOps.  `sample` uses searchsorted side="right" (the repair
+   fixes/C15-sample-zero-weight.diff, commit f5126ba in /repo); the rule of the code before that commit is kept as
+   `face_choice_left` so that the repaired defect can be stated.
+   `searchsorted_right` is a linear scan (first index with x < cum[i]); it equals NumPy's bisection on ascending
+   arrays, i.e. for non-negative weights, which is the hypothesis of every theorem that uses it. *)
 From Coq Require Import ZArith List Bool.
 From PW Require Import Num Vec NpList Result.
 Import ListNotations.
@@ -58,6 +60,13 @@ Section Tri.
     let b1 := nmul O (vdot O (vcross O w v) n) inv in
     V3 (nsub O (nsub O (n1 O) b1) b2) b1 b2.
   Definition bary_pairs (ts : list (tri F)) (ps : list (vec3 F)) : list (vec3 F) := map2 bary ts ps.
+  (* the same call on INTEGER (int64) arrays: `s` is then an integer array, the assignment `s[s == 0] = np.spacing(1)`
+     stores 0, `1.0 / s` is inf and the row comes out as NaN (None); for s <> 0 nothing differs from the float case *)
+  Definition bary_intarray (t : tri F) (p : vec3 F) : option (vec3 F) :=
+    let n := tri_cross t in
+    if neqb O (vdot O n n) (n0 O) then None else Some (bary t p).
+  Definition bary_pairs_intarray (ts : list (tri F)) (ps : list (vec3 F)) : list (option (vec3 F)) :=
+    map2 bary_intarray ts ps.
   (* the linear combination the weights stand for *)
   Definition bary_combine (t : tri F) (w : vec3 F) : vec3 F :=
     vadd O (vadd O (vscale O (vx w) (ta t)) (vscale O (vy w) (tb t))) (vscale O (vz w) (tc t)).
